@@ -405,3 +405,24 @@ class Temporal:
 ALL_MODELS = [Basic, TextAttr, TextStr, ReqText, Lists, TokenLists, Frozen, Nillable, NilChild, NilParent, Child, ParentA, ParentB, NsAttr, Unqualified,
               Sequential, Wrapped, Formats, Unions, Enums, QNames, Alpha, Compound, CompoundSingle, Base, Derived, Sibling, Holder,
               Wild, WildList, Mixed, AnyTyped, Defaults, Temporal]
+
+
+# --------------------------------------------------------------------------- wildcard namespace modes (C11)
+def _wild_model(name, ns_mode, target=NS_A):
+    @dataclass
+    class W:
+        any: List[object] = field(default_factory=list, metadata={"type": "Wildcard", "namespace": ns_mode})
+
+    W.__name__ = W.__qualname__ = name
+    W.Meta = type("Meta", (), {"name": "w", "namespace": target})
+    return W
+
+
+WAny = _wild_model("WAny", "##any")
+WOther = _wild_model("WOther", "##other")
+WLocal = _wild_model("WLocal", "##local")
+WTarget = _wild_model("WTarget", "##targetNamespace")
+WUri = _wild_model("WUri", NS_B)
+WTwo = _wild_model("WTwo", "##local urn:b")
+WILD_MODES = [WAny, WOther, WLocal, WTarget, WUri, WTwo]
+ALL_MODELS.extend(WILD_MODES)
